@@ -53,6 +53,8 @@ type RunResult struct {
 	Terms       int               `json:"terms"`
 	Calls       int               `json:"inlined_calls"`
 	Literals    map[string]int64  `json:"literals,omitempty"`
+	Nondets     map[string]string `json:"nondets,omitempty"`
+	Outputs     int               `json:"output_events"`
 	Meta        map[string]interface{} `json:"meta,omitempty"`
 }
 
@@ -218,6 +220,14 @@ func runEntry(prog *ssa.Program, epkg *ssa.Package, entry string, cfg Config, po
 	res.Models = ex.modelsHit
 	res.Notes = ex.notes
 	res.Meta = ex.scenarioMeta
+	res.Literals = map[string]int64{}
+	for k, v := range Lits.byStr {
+		res.Literals[k] = v
+	}
+	res.Nondets = map[string]string{}
+	for _, nd := range ex.nondets {
+		res.Nondets[nd.Name] = nd.Kind
+	}
 	for name := range ex.encoded {
 		res.Functions[name] = fnHash(prog, name)
 	}
